@@ -208,6 +208,22 @@ def chk_case(case, acc, seed):
     mode = case['mode']
     key = f'history:{o.name}'
     try:
+        return _chk_case(o, mode, key, case, acc, seed)
+    except engine.StopTask:
+        raise
+    except Exception as e:
+        # every call of the catalogue is legal on the tree the catalogue was written against: a call that raises (also at the
+        # call site: a renamed keyword, a removed default) is a behaviour of the code under test
+        import traceback
+        tb = traceback.extract_tb(e.__traceback__)
+        acc.violation(f'{key}:raises:{type(e).__name__}', case, f'{o.name} ({mode}): {type(e).__name__}: {e} [{tb[-1].name}:{tb[-1].lineno}]')
+        return None
+    finally:
+        acc.evaluations += 1
+
+
+def _chk_case(o, mode, key, case, acc, seed):
+    if True:
         if mode == 'single':
             v = variant_by_name(o, case['variant'])
             d, changed, r = _cold(o, seed, v, want_result=True)
@@ -368,8 +384,6 @@ def chk_case(case, acc, seed):
             if dig(r) != cold:
                 acc.violation(f'{key}:read-only-arguments-change-result', case, f'{o.name} on read-only arguments returns something else')
             return
-    finally:
-        acc.evaluations += 1
     raise ValueError(mode)
 
 
